@@ -68,12 +68,22 @@ def wiring(model):
         raise AnalysisError('subscribe: expected exactly one nested registry helper')
     w.helper = helper
     qt = sub.params[3] if len(sub.params) > 3 else None
-    tests = [t for t in g.nodes if t.kind == 'test' and isinstance(t.ast, ast.Compare) and isinstance(t.ast.left, ast.Name) and t.ast.left.id == qt
-             and isinstance(t.ast.ops[0], ast.Eq) and const_str(t.ast.comparators[0]) in ('lifo', 'fifo')]
+    def sel_cmp(e):
+        """the comparison `queue_type == 'lifo'|'fifo'` that e is, or that e is a conjunction of together with `queue_type is not None` only"""
+        if isinstance(e, ast.Compare) and isinstance(e.left, ast.Name) and e.left.id == qt and len(e.ops) == 1 and isinstance(e.ops[0], ast.Eq) and const_str(e.comparators[0]) in ('lifo', 'fifo'):
+            return e
+        if isinstance(e, ast.BoolOp) and isinstance(e.op, ast.And):
+            cs = [sel_cmp(v) for v in e.values]
+            rest = [v for v, c_ in zip(e.values, cs) if c_ is None]
+            if sum(1 for c_ in cs if c_ is not None) == 1 and all(isinstance(v, ast.Compare) and isinstance(v.left, ast.Name) and v.left.id == qt and isinstance(v.ops[0], ast.IsNot)
+                                                                   and isinstance(v.comparators[0], ast.Constant) and v.comparators[0].value is None for v in rest):
+                return next(c_ for c_ in cs if c_ is not None)
+        return None
+    tests = [t for t in g.nodes if t.kind == 'test' and sel_cmp(t.ast) is not None]
     if len(tests) != 1:
         raise AnalysisError('subscribe: the queue_type selector test was not found')
     t = tests[0]
-    named = const_str(t.ast.comparators[0])
+    named = const_str(sel_cmp(t.ast).comparators[0])
     other = 'fifo' if named == 'lifo' else 'lifo'
     w.registry = {}
     if w.inline:
